@@ -67,9 +67,10 @@ theorem public_refresh_src : public_refresh = "h.refresh(ctx, false)" := by deci
 theorem pick_index_src : pick_index = "len(h.activeUpstreams)" := by decide
 theorem serve_fallback_index_src : serve_fallback_index = "len(h.fallbacks)" := by decide
 theorem serve_fallback_pick_src : serve_fallback_pick = "h.fallbacks[i]" := by decide
-/-- `exchangeNet`: one more attempt on a fresh connection, only after an expected connection error. -/
+/-- `exchangeNet`: one more attempt on a fresh connection, only after an expected connection error
+(since the C06 repair the request is packed again first, which adds one error check). -/
 def exchangeNetIfCondsExpected : String :=
-  "network == NetworkTCP | err != nil | err != nil | isExpectedConnErr(err) | err != nil"
+  "network == NetworkTCP | err != nil | err != nil | isExpectedConnErr(err) | err != nil | err != nil"
 theorem exchange_net_if_conds_src : exchange_net_if_conds = exchangeNetIfCondsExpected := by decide
 
 end Agd.Tie.C17
